@@ -496,9 +496,16 @@ def text_pass(res, ctx, rng, root):
             panics.append((d, io_))
         if op == "plain":
             ex = T.expected(f)
-            de = T.diff(ex, impl)
+            de = T.diff(ex, impl, "printed data")
             if de is not None:
                 exp_fail.append((d, io_, de))
+            # the round-trip statements (C19_*_text_roundtrip, C19_text_roundtrips_full) on this record:
+            # the MODEL returns the printed data
+            dm = T.diff(ex, model, "printed data")
+            st["text-roundtrip-statement-evaluations"] += 1
+            if dm is not None:
+                diffs.append((d, io_, "the model does not return the printed data of a rendered document (round-trip statement): "
+                              + dm.replace("implementation", "model")))
             if i in lay_out:
                 st["text-gallina-renderings"] += 1
                 if T.dec_render(lay_out[i]) != txt:
